@@ -21,7 +21,8 @@ META = dict(
          "simulation) differs must be in the next report exactly once with the value it has at that instant; no report "
          "contains a tag twice (checked on the message that would be sent, i.e. after the builder's de-duplication); a "
          "snapshot contains every tag of the system, UOD and merged tag collections.",
-    note="Three programs additionally run for 400 ticks without any report, then one incremental report and a snapshot (a value "
+    note="Two programs additionally run with the Connection Status system tag switched to Disconnected and back (as the hardware "
+         "error-recovery layer does).  Three programs additionally run for 400 ticks without any report, then one incremental report and a snapshot (a value "
          "that changes late must not be lost because earlier notifications pile up).  The first interval starts at the state before the first tick.  Unchanged tags may be reported (the statement does not "
          "forbid it).  never-reported = the tag is in no incremental report of the whole run; missing-from-next-report = it is "
          "reported, but not when it changed.",
@@ -32,8 +33,25 @@ LONG = 400          # ticks without any report (a reporter that is disconnected 
 LONG_PROGRAMS = [["Wait: 36s", "Mark: late"], ["Wait: 38s", "Valve: Open"], ["Watch: X > 1", "    Wait: 35s", "    Mark: late"]]
 
 
+def connection_loss(run, k):
+    """What ErrorRecoveryDecorator does to the Connection Status system tag when the hardware is lost / comes back."""
+    from openpectus.lang.exec.tags import SystemTagName
+    tag = run.engine._system_tags[SystemTagName.CONNECTION_STATUS]
+    if k == 6:
+        tag.set_value("Disconnected", run.now)
+    elif k == 14:
+        tag.set_value("Connected", run.now)
+
+
+CONNECTION_PROGRAMS = [["Mark: a"], ["Wait: 1s", "Mark: b"]]
+
+
 def check_program(item):
     lines, period = item[0], item[1]
+    if len(item) > 2 and item[2] == "connection":
+        tr = cc.trace(lines, period=period, mid_snapshot=True, tick_hook=connection_loss)
+        probs, stats = cc.c36_problems(tr)
+        return cc.uniq([(s_ + ":hardware-connection-lost-and-back", w) for s_, w in probs]), stats, True, tr["tick_exceptions"]
     if len(item) > 2:
         # one incremental report after a long silence (snapshot_each: followed by a snapshot)
         tr = cc.trace(lines, period=period, snapshot_each=True, horizon=item[2])
@@ -52,7 +70,8 @@ def check_program(item):
 def run(ctx):
     periods = (1, 2) if ctx.quick else (1, 2, 3)
     progs = cc.corpus(ctx.quick)
-    items = [(lines, r) for lines in progs for r in periods] + [(lines, LONG, LONG) for lines in LONG_PROGRAMS]
+    items = ([(lines, r) for lines in progs for r in periods] + [(lines, LONG, LONG) for lines in LONG_PROGRAMS]
+             + [(lines, r, "connection") for lines in CONNECTION_PROGRAMS for r in (1, 3)])
     ctx.prove_deterministic(check_program, [items[0], items[81], items[-1]])
     gc.collect()
     gc.freeze()              # keep the forked workers from copying the inherited heap on their first collection
@@ -66,7 +85,8 @@ def run(ctx):
         nontrivial += 1 if nt else 0
         tick_exc += te
         for sig, what in viol:
-            ctx.violation(sig, what, {"lines": lines, "period": r, "horizon": it[2] if len(it) > 2 else None})
+            ctx.violation(sig, what, {"lines": lines, "period": r, "horizon": it[2] if len(it) > 2 and it[2] != "connection" else None,
+                                      "connection": len(it) > 2 and it[2] == "connection"})
     if nontrivial < len(items) // 2 or changed < 1000 or snapshots < len(items):
         raise HarnessError(f"vacuous: {nontrivial} non-trivial executions, {changed} changed (tag, interval) pairs, {snapshots} snapshots")
     n = len(items)
@@ -86,6 +106,11 @@ def run(ctx):
 
 
 def replay(data):
+    if data.get("connection"):
+        viol = check_program((data["lines"], data["period"], "connection"))[0]
+        for _, w in viol:
+            print(w)
+        return viol
     if data.get("horizon"):
         viol = check_program((data["lines"], data["period"], data["horizon"]))[0]
         for _, w in viol:
